@@ -589,7 +589,7 @@ func c05Fingerprints(class string, culprits []map[string]string, l linLine) ([]s
 }
 
 func C05(c *core.Ctx, replay string) {
-	c.Rule = "Behaviours of the implementation-shaped TLA+ model PosixKey (every interleaving of the filesystem steps of 2 concurrent requests on one key, sampled interleavings of 3) are replayed into the real gateway through blocking hooks; the client-visible history (plus a read after quiescence) is judged by TLC against the atomic-register spec LinKey (NoTornRead, NoSpuriousMissing, linearizability). Free-running rounds of <=5 concurrent requests are validated the same way. Non-trivial: a schedule in which at least two requests overlap."
+	c.Rule = "Behaviours of the implementation-shaped TLA+ model PosixKey (every interleaving of the filesystem steps of 2 concurrent requests on one key, sampled interleavings of 3) are replayed into the real gateway through blocking hooks; the client-visible history (plus a read after quiescence) is judged by TLC against the atomic-register spec LinKey (NoTornRead, NoSpuriousMissing, linearizability). Free-running rounds of <=5 concurrent requests are validated the same way. Non-trivial: a schedule in which at least two requests overlap. Every write carries a metadata entry named after its writer (an attribute left behind by another write is visible); two first-time uploads of a key are interleaved too; directed schedules cover the nested windows of a DELETE (upload completes after del.stat, read runs after del.removed)."
 	c.Assumptions = []string{"process-level interleaving only (no power loss, ext4)", "one client process assigns invocation/return instants from one counter",
 		"a request answered 5xx may or may not have taken effect"}
 
